@@ -540,7 +540,7 @@ def finding_status(ctx):
 
 def run(ctx):
     build = leanbuild.ensure(PROPERTY, THEOREMS, thorough=ctx.thorough, extractors=[])
-    n = 12000 if ctx.thorough else 900
+    n = 12000 if ctx.thorough else 1500
     cases, lines, spans = explore(ctx, n, corpus=[WITNESS_RELOAD, WITNESS_SELF] + load_corpus())
     if build.driver_ok:
         fill_model(cases, lines, spans)
